@@ -10,7 +10,8 @@ RULE = ('paired runs of the REAL CVise.reduce on identical inputs, cache on vs -
         'contents (the same pass several times in a group, multi-round main loops, growing then undoing passes), 1-3 files, '
         'different N and different schedules for the two runs; contract-respecting scripted passes and deterministic tests; '
         'oracle: identical final bytes and exit; every run is also compared with the Coq model; non-trivial = distinct '
-        'scenarios in which the cache was actually hit (the logging hook counts "cache hit" messages)')
+        'scenarios in which the cache was actually hit (the logging hook counts "cache hit" messages)'
+        ' Also: contents of equal length and equal CRC-32 (the key must identify the contents).')
 TRUSTED = T0
 ASSUMPTIONS = ['deterministic test and passes; passes satisfy the C02 contract (the transparency theorem needs schedule independence)',
                'repr(pass) separates passes that can behave differently (key_injective hypothesis of the theorem)']
